@@ -8,20 +8,20 @@ FUNCTIONS = [
          contract="ensures r == spec_version(source_unit)"),
     dict(name="check_if_using_safe_math", rel=O + "safe_math.rs", attrs=LI,
          contract="ensures r == file_uses_safemath(source_unit)",
-         after=[dict(match=r"let target_nodes", text="let ghost w = target_nodes@;")],
-         loops=[dict(match=r"^target_nodes$", binder="it",
-                     inv="it.seq() == w, w == w1(source_unit, Target::Using), using_safe_math == any_uses_safemath(w, it.index@)",
-                     body="let ghost before = using_safe_math; let ghost cur = w[it.index@];"),
+         after=[dict(match="@x0", text="let ghost w = $x0@;")],
+         loops=[dict(match=r"^$x0$", binder="it",
+                     inv="it.seq() == w, w == w1(source_unit, Target::Using), $ret == any_uses_safemath(w, it.index@)",
+                     body="let ghost before = $ret; let ghost cur = w[it.index@];"),
                 dict(match=r"identifier_path\.identifiers", nth=0, binder="ia",
-                     inv="using_safe_math == (before || path_has_safemath(ia.seq(), ia.index@))"),
+                     inv="$ret == (before || path_has_safemath(ia.seq(), ia.index@))"),
                 dict(match=r"identifier_path\.identifiers", nth=0, binder="ib",
-                     inv="using_safe_math == (before || path_has_safemath(ib.seq(), ib.index@))")]),
+                     inv="$ret == (before || path_has_safemath(ib.seq(), ib.index@))")]),
     dict(name="parse_contract_for_safe_math_functions", rel=O + "safe_math.rs", attrs=LI,
          contract="ensures r@ == safemath_sites(source_unit)",
          start="    proof { axiom_loc_key_model(); }",
-         after=[dict(match=r"let target_nodes", text="let ghost w = target_nodes@;")],
-         loops=[dict(match=r"^target_nodes$", binder="it",
-                     inv="it.seq() == w, w == w1(source_unit, Target::FunctionCall), optimization_locations@ == hits(w, it.index@, |n: Node| pat_safemath_site(n), |n: Node| loc_callee_member(n))",
+         after=[dict(match="@x0", text="let ghost w = $x0@;")],
+         loops=[dict(match=r"^$x0$", binder="it",
+                     inv="it.seq() == w, w == w1(source_unit, Target::FunctionCall), $ret@ == hits(w, it.index@, |n: Node| pat_safemath_site(n), |n: Node| loc_callee_member(n))",
                      body="proof { axiom_loc_key_model(); lemma_flt_wanted(set![Target::FunctionCall], all_nodes(su_node(source_unit)), it.index@); }")]),
     dict(name="safe_math_optimization", rel=O + "safe_math.rs",
          contract="ensures r@ == safe_math_spec(source_unit, pre_080)",
@@ -31,16 +31,16 @@ FUNCTIONS = [
     dict(name="string_error_optimization", rel=O + "string_errors.rs", attrs=LI,
          contract="requires wf_strings(w1(source_unit, Target::FunctionCall))\n    ensures r@ == string_errors_spec(source_unit)",
          start="    proof { axiom_loc_key_model(); }",
-         after=[dict(match=r"let target_nodes", text="let ghost w = target_nodes@;")],
-         loops=[dict(match=r"^target_nodes$", binder="it",
-                     inv="it.seq() == w, w == w1(source_unit, Target::FunctionCall), optimization_locations@ == hits(w, it.index@, |n: Node| pat_string_error(n), |n: Node| loc_require_string(n))",
+         after=[dict(match="@x0", text="let ghost w = $x0@;")],
+         loops=[dict(match=r"^$x0$", binder="it",
+                     inv="it.seq() == w, w == w1(source_unit, Target::FunctionCall), $ret@ == hits(w, it.index@, |n: Node| pat_string_error(n), |n: Node| loc_require_string(n))",
                      body="proof { axiom_loc_key_model(); lemma_flt_wanted(set![Target::FunctionCall], all_nodes(su_node(source_unit)), it.index@); }")]),
     dict(name="short_revert_string_optimization", rel=O + "short_revert_string.rs", attrs=LI,
          contract="requires wf_strings(w1(source_unit, Target::FunctionCall))\n    ensures r@ == short_revert_spec(source_unit)",
          start="    proof { axiom_loc_key_model(); }",
-         after=[dict(match=r"let target_nodes", text="let ghost w = target_nodes@;")],
-         loops=[dict(match=r"^target_nodes$", binder="it",
-                     inv="it.seq() == w, w == w1(source_unit, Target::FunctionCall), optimization_locations@ == hits(w, it.index@, |n: Node| pat_short_revert(n), |n: Node| loc_require_string(n))",
+         after=[dict(match="@x0", text="let ghost w = $x0@;")],
+         loops=[dict(match=r"^$x0$", binder="it",
+                     inv="it.seq() == w, w == w1(source_unit, Target::FunctionCall), $ret@ == hits(w, it.index@, |n: Node| pat_short_revert(n), |n: Node| loc_require_string(n))",
                      body="proof { axiom_loc_key_model(); lemma_flt_wanted(set![Target::FunctionCall], all_nodes(su_node(source_unit)), it.index@); }")]),
 ]
 LEMMAS = [
